@@ -185,12 +185,11 @@ SWake(e) ==
                    uTop, uBase, uR>>
 
 \* queue.resend: (base, top) read; b is the value of base that was read, which
-\* may be older than the current one (R moves base concurrently), but never
-\* outside the packets still stored: b is in [top-N, base] circularly.
+\* may be older than the current one (R moves base concurrently), but it is
+\* a value the base has had while the packets [b, top) were all stored: in
+\* unwrapped terms top-N <= b <= base.
 ResendFrom(e, b) ==
-    /\ b \in 0..(S-1)
-    /\ QSize(b, top[e], S) <= N
-    /\ QSize(b, base[e], S) <= QSize(b, top[e], S)
+    \E ub \in (IF uTop[e] > N THEN uTop[e] - N ELSE 0)..uBase[e] : ub % S = b
 
 SResendBegin(e, b) ==
     /\ \/ AtSelect(e) /\ rsRet' = [rsRet EXCEPT ![e] = "idle"]
@@ -201,7 +200,7 @@ SResendBegin(e, b) ==
     /\ rsNext' = [rsNext EXCEPT ![e] = b]
     /\ rsTop' = [rsTop EXCEPT ![e] = top[e]]
     /\ spc' = [spc EXCEPT ![e] = "rs"]
-    /\ nRs' = [nRs EXCEPT ![e] = @ + 1]
+    /\ nRs' = [nRs EXCEPT ![e] = IF @ < MaxResend THEN @ + 1 ELSE @]
     /\ UNCHANGED <<base, top, buf, rseq, lastNack, ch, ping, rcur, szR, inbox,
                    nAcc, nPing, dlv, drops, dups, nInj, uTop, uBase, uR>>
 
@@ -277,13 +276,12 @@ RNackSupp(e) ==
                    rsRet, szR, inbox, nAcc, nPing, dlv, drops, dups, nRs, nInj,
                    uTop, uBase, uR>>
 
-\* queue.processACK when the queue was found empty by the unlocked pre-check.
-\* The pre-check races with addPacket: it saw the queue empty iff the queue
-\* was empty at some point since R's previous event, and since only S adds,
-\* that is iff it was empty right after that event (szR).
+\* queue.processACK when the queue was found empty by its pre-check.  (The
+\* pre-check is not under the lock that addPacket takes; the trace
+\* specification allows for that race, see Trace_GBN!TAckEmpty and szR.)
 RAckEmpty(e) ==
     /\ rcur[e].k = "ACK"
-    /\ szR[e] = 0
+    /\ Size(e) = 0
     /\ rcur' = [rcur EXCEPT ![e] = None]
     /\ szR' = [szR EXCEPT ![e] = Size(e)]
     /\ UNCHANGED <<base, top, buf, rseq, lastNack, ch, spc, ping, rsNext, rsTop,
@@ -364,6 +362,51 @@ Next ==
           /\ \E q \in InjSeqs : AdvInject(e, Ack(q)) \/ AdvInject(e, Nack(q))
 
 Spec == Init /\ [][Next]_vars
+
+(***************************************************************************)
+(* Liveness (C06).  The resend timer keeps firing while the send loop sits  *)
+(* at a select with unacknowledged packets, so resend rounds are not        *)
+(* bounded here (the counter saturates); faults are finite (the budgets).   *)
+(* Weak fairness on every step of the loops, the application and the resend *)
+(* timer; the spurious wake-up SWake is possible but not relied upon.       *)
+(***************************************************************************)
+LiveNext ==
+    \E e \in EP :
+       \/ (ping[e] \/ nAcc[e] < MaxSend[e]) /\ SAdd(e)
+       \/ \E k \in {0, 1, 2} : CanFault(k) /\ Room(Peer(e)) /\ STxFirst(e, k)
+       \/ SFull(e)
+       \/ Size(e) < N /\ SWake(e)     \* a wake-up signal follows a base move
+       \/ \E b \in 0..(S-1) : SResendBegin(e, b)
+       \/ \E k \in {0, 1, 2} : CanFault(k) /\ Room(Peer(e)) /\ SResendStep(e, k)
+       \/ SResendEnd(e) \/ SSyncDone(e)
+       \/ Rx(e)
+       \/ \E k \in {0, 1, 2} : CanFault(k) /\ Room(Peer(e)) /\ RDataOk(e, k)
+       \/ \E k \in {0, 1, 2} : CanFault(k) /\ Room(Peer(e)) /\ RNackSend(e, k)
+       \/ RNackSupp(e) \/ RAckEmpty(e) \/ RAck(e) \/ RNack(e)
+       \/ AppRecv(e)
+
+Fairness ==
+    \A e \in EP :
+       /\ SF_vars((ping[e] \/ nAcc[e] < MaxSend[e]) /\ SAdd(e))
+       /\ WF_vars(Room(Peer(e)) /\ STxFirst(e, 1))
+       /\ WF_vars(SFull(e))
+       /\ WF_vars(\E b \in 0..(S-1) : SResendBegin(e, b))
+       /\ WF_vars(Room(Peer(e)) /\ SResendStep(e, 1))
+       /\ WF_vars(SResendEnd(e)) /\ WF_vars(SSyncDone(e))
+       /\ WF_vars(Rx(e))
+       /\ WF_vars(Room(Peer(e)) /\ RDataOk(e, 1))
+       /\ SF_vars(Room(Peer(e)) /\ RNackSend(e, 1))
+       /\ WF_vars(RAckEmpty(e)) /\ WF_vars(RAck(e)) /\ WF_vars(RNack(e))
+       /\ WF_vars(AppRecv(e))
+
+LiveSpec == Init /\ [][LiveNext]_vars /\ Fairness
+
+\* every message the application can send is eventually delivered, for good
+EventuallyDelivered ==
+    <>[](\A e \in EP : Len(dlv[e]) = MaxSend[Peer(e)])
+
+\* and the connection becomes quiet: nothing left to retransmit
+EventuallyQuiet == <>[](\A e \in EP : Size(e) = 0)
 
 ---------------------------------------------------------------------------
 (* Properties *)
